@@ -36,9 +36,11 @@ def make_event(idx, pk, kind, ts, tags, content="c"):
     return Event(id=IDS[idx], pubkey=PKS[pk], kind=kind, created_at=ts, tags=tags, content=content, sig=SIG)
 
 
-def run_writer(env, tasks):
+def run_writer(env, tasks, pending=None):
     """execute the real writer loop over `tasks` (then the stop sentinel); returns the thread object"""
     wt = kv.WriterThread(env, _Stats())
+    if pending is not None and hasattr(wt, "pending"):
+        wt.pending = pending
     for t in tasks:
         wt.queue.put(t)
     wt.queue.put(None)
